@@ -184,3 +184,17 @@ Theorem pfor_get_at_exact xs thr i :
 Proof.
   intros. rewrite <- (app_nil_r (pfor_encode_bytes xs thr)). apply pfor_get_at_ok; assumption.
 Qed.
+
+(* the outlier test in plain arithmetic (no wrap-around happens: min <= v) *)
+Theorem pfor_is_exc_math xs thr v :
+  (1 <= length xs)%nat -> Forall (fun x => x < 18446744073709551616) xs -> In v xs ->
+  let m := pfor_encode_meta xs thr in
+  pfor_is_exc (pm_min m) (pm_tv m) (pm_marker m) v
+  = ((pm_tv m <? v) || (v - pm_min m =? pm_marker m)).
+Proof.
+  intros Hlen Hok Hv. cbv zeta. setup xs thr Hlen Hok w MO L.
+  change (pfor_encode_meta xs thr) with (pfor_compute_threshold xs thr).
+  unfold pfor_is_exc. rewrite sub64_small; [reflexivity| |].
+  - apply (mo_min_le _ _ _ MO). exact Hv.
+  - apply (in64 xs Hok). exact Hv.
+Qed.
